@@ -6,7 +6,7 @@
  * stdout: records  { u32 regs[8]; u32 eflags; u32 marker; u8 data[1024]; [u8 fx[512]] }
  * The instruction is placed at CODE+0x800 in a page filled with int3; an exit stub is written at every address in stubs[]
  * (fall-through and branch targets): it stores its own address into `marker` and jumps back.  A fault (SIGSEGV, SIGILL,
- * SIGTRAP, SIGFPE, SIGBUS, or SIGALRM after 200 ms) sets marker = 0xFFFF0000 | signal.
+ * SIGTRAP, SIGFPE, SIGBUS, or SIGVTALRM after 200 ms of CPU time) sets marker = 0xFFFF0000 | signal.
  * data[] is the window DATA+0x600 .. DATA+0xA00 of the data page (the rest of the page is zero).
  */
 typedef unsigned int u32;
@@ -118,8 +118,8 @@ void _start(void) {
     struct kstack ss; ss.sp = (void *)ALT; ss.flags = 0; ss.size = 65536;
     sys3(186, (u32)&ss, 0, 0);
     struct ksigaction sa; sa.handler = (void *)fault_handler; sa.flags = 0x08000000u | 0x40000000u; sa.restorer = 0; sa.mask[0] = 0; sa.mask[1] = 0;
-    int sigs[] = {4, 5, 7, 8, 11, 14};
-    for (int i = 0; i < 6; i++) sys4(174, sigs[i], (u32)&sa, 0, 8);
+    int sigs[] = {4, 5, 7, 8, 11, 14, 26};
+    for (int i = 0; i < 7; i++) sys4(174, sigs[i], (u32)&sa, 0, 8);
     static struct { long a, b, c, d; } it_on = {0, 0, 0, 200000}, it_off = {0, 0, 0, 0};   /* it_interval, it_value (200 ms) */
     volatile u32 *comm = (volatile u32 *)COMM;
     for (;;) {
@@ -153,9 +153,9 @@ void _start(void) {
         comm[0x54 / 4] = 0;
         comm[0x58 / 4] = flags & 1;
         if (flags & 1) copy((u8 *)(COMM + 0x200), fx, 512);
-        sys3(104, 0, (u32)&it_on, 0);       /* setitimer(ITIMER_REAL): a test instruction that spins is stopped by SIGALRM */
+        sys3(104, 1, (u32)&it_on, 0);       /* setitimer(ITIMER_VIRTUAL): a test instruction that spins for 200 ms of its own CPU time is stopped by SIGVTALRM (26); machine load cannot trigger it */
         run_case();
-        sys3(104, 0, (u32)&it_off, 0);
+        sys3(104, 1, (u32)&it_off, 0);
         for (int i = 0; i < 8; i++) ((u32 *)out)[i] = comm[12 + i];
         ((u32 *)out)[8] = comm[0x50 / 4];
         ((u32 *)out)[9] = comm[0x54 / 4];
